@@ -46,10 +46,48 @@ def generate():
 
 
 # ------------------------------------------------------------------ loading generated modules
-def load_module(tmp, name, src):
-    path = os.path.join(tmp, name + '.py')
+def write_source(path, src, stamp=None):
     with open(path, 'w', encoding='utf-8', newline='\n') as f:
         f.write(src)
+    if stamp is not None:          # make sure the edit is visible to linecache.checkcache (size/mtime)
+        os.utime(path, (stamp, stamp))
+
+
+def _with_alarm(fn, *a):
+    import signal
+
+    def _alarm(*_):
+        raise TimeoutError('generated module runs too long')
+    old = signal.signal(signal.SIGALRM, _alarm)
+    signal.alarm(20)
+    try:
+        return fn(*a)
+    finally:
+        signal.alarm(0)
+        signal.signal(signal.SIGALRM, old)
+
+
+def edit_same_lines(src, rnd_no):
+    """another version of a generated module: same names at the same lines, different bodies"""
+    out = []
+    for l in src.split('\n'):
+        st = l.strip()
+        ind = l[:len(l) - len(l.lstrip())]
+        if st == 'pass':
+            l = ind + 'x = %d' % (70 + rnd_no)
+        elif st == 'return x':
+            l = ind + 'return (x, %d)' % rnd_no
+        elif st in ('"""doc"""', '"""class doc"""'):
+            l = ind + '"""doc v%d"""' % rnd_no
+        elif st == 'x = None' and ind:
+            l = ind + 'x = None; y = %d' % rnd_no
+        out.append(l)
+    return '\n'.join(out)
+
+
+def load_module(tmp, name, src):
+    path = os.path.join(tmp, name + '.py')
+    write_source(path, src)
     spec = importlib.util.spec_from_file_location(name, path)
     mod = importlib.util.module_from_spec(spec)
     sys.modules[name] = mod
@@ -170,6 +208,8 @@ class Harness(object):
         self.parser, self.iu, self.errors = parser, inspect_utils, errors
         self.run = run
         self.tmp = tmp
+        if tmp not in sys.path:
+            sys.path.insert(0, tmp)      # importlib.reload finds the history modules there
         self.cases = []          # Coq case terms
         self.case_info = {}      # index -> description
         self.failures = []       # property-level: dict(kind, title, replay, classify)
@@ -386,6 +426,84 @@ class Harness(object):
                             text_budget[0] -= 1
         sys.modules.pop(name, None)
 
+    # --- histories: the same location holds different definitions over time
+    def judge_objects(self, reg, tree, ctx, lambdas=True):
+        seen = set()
+        for key in sorted(reg):
+            f = reg[key]
+            if not inspect.isfunction(f) or id(f.__code__) in seen:
+                continue
+            seen.add(id(f.__code__))
+            if self.iu.islambda(f):
+                if lambdas:
+                    self.judge_lambda(key, f, tree, lambda_table(tree, self.intern), ctx)
+            else:
+                self.judge_function(f, tree, dict(ctx, KEY=key))
+
+    def do_file_history(self, src, ctx, rounds, how):
+        """write, import, recover; then `rounds` times: rewrite the file (same names / lines, other bodies),
+        reload or re-import, recover the NEW objects -- each judged against the text compiled for that object"""
+        import time
+        self.nmod += 1
+        name = 'c15m_h%d_%d' % (os.getpid(), self.nmod)
+        path = os.path.join(self.tmp, name + '.py')
+        texts = [src]
+        stamp = int(time.time()) - 1000
+        try:
+            mod, _ = load_module(self.tmp, name, src)
+        except Exception as e:   # noqa
+            self.run.note('history module does not import (%s) -- skipped' % type(e).__name__)
+            return
+        os.utime(path, (stamp, stamp))
+        self.stats['histories'] = self.stats.get('histories', 0) + 1
+        self.judge_objects(mod.REG, ast.parse(src), dict(ctx, module=name, module_source=src, history_step=0))
+        for r in range(1, rounds + 1):
+            text = edit_same_lines(src, r)
+            texts.append(text)
+            write_source(path, text, stamp + 10 * r)
+            try:
+                if how == 'reload' or (how == 'alternate' and r % 2):
+                    mod = _with_alarm(importlib.reload, mod)
+                    step = 'importlib.reload'
+                else:
+                    sys.modules.pop(name, None)
+                    spec = importlib.util.spec_from_file_location(name, path)
+                    mod = importlib.util.module_from_spec(spec)
+                    sys.modules[name] = mod
+                    _with_alarm(spec.loader.exec_module, mod)
+                    step = 're-import'
+            except Exception as e:   # noqa
+                self.run.note('history step does not import (%s: %s)' % (type(e).__name__, e))
+                break
+            self.judge_objects(mod.REG, ast.parse(text), dict(
+                ctx, module=name, module_source=text, history=list(texts), history_step=r, history_how=step,
+                note='the file was rewritten %d time(s) with other bodies at the same lines and %sed; the object '
+                     'judged is the one compiled from the LAST text' % (r, step)))
+        sys.modules.pop(name, None)
+
+    def do_exec_history(self, src, ctx, rounds):
+        """exec'd code whose text lives only in linecache; the entry is replaced and the code exec'd again"""
+        import linecache
+        self.nmod += 1
+        fname = '<c15-exec-%d-%d>' % (os.getpid(), self.nmod)
+        texts = []
+        for r in range(rounds + 1):
+            text = src if r == 0 else edit_same_lines(src, r)
+            texts.append(text)
+            linecache.cache[fname] = (len(text), None, [l + '\n' for l in text.split('\n')[:-1]], fname)
+            ns = {'__name__': 'c15m_exec'}
+            try:
+                _with_alarm(exec, compile(text, fname, 'exec'), ns)
+            except Exception as e:   # noqa
+                self.run.note('exec history does not run (%s: %s)' % (type(e).__name__, e))
+                break
+            self.stats['exec_steps'] = self.stats.get('exec_steps', 0) + 1
+            self.judge_objects(ns['REG'], ast.parse(text), dict(
+                ctx, module=fname, module_source=text, history=list(texts), history_step=r, history_how='exec+linecache',
+                note='code exec()d from a string under the file name %s with linecache.cache[%r] set to its text; '
+                     'step %d' % (fname, fname, r)), lambdas=False)
+        linecache.cache.pop(fname, None)
+
 
 ADVERSARIAL = [
     'x = 1\n', '', '\n', '   \n', 'a\\\nb', '\\\n', '\\\\\n\n', 'a \\\n b\n', "s = 'a\\\nb'\n", '# c \\\nx\n',
@@ -411,6 +529,8 @@ def check(run):
         _check(run, tmp)
     finally:
         shutil.rmtree(tmp, ignore_errors=True)
+        if tmp in sys.path:
+            sys.path.remove(tmp)
         for k in [k for k in sys.modules if k.startswith('c15m_')]:
             sys.modules.pop(k, None)
 
@@ -445,6 +565,18 @@ def _check(run, tmp):
                           'style': style, 'unsafe': unsafe}, text_budget)
         if i < 4:
             h.text_cases(src, 'module text %d' % i)
+    # histories (the property quantifies over the definitions a location holds over time)
+    nh = 60 if thorough else 10
+    for i in range(nh):
+        seed = rnd.randrange(1 << 30)
+        style = ['spaces', 'tabs', 'spaces'][i % 3]
+        src, g = c15_gen.gen_module(seed, style=style, unsafe=False, size=rnd.choice([4, 6]))
+        how = ['reload', 're-import', 'alternate'][i % 3]
+        org = 'history of c15_gen.gen_module(%d, style=%r) edited by c15.edit_same_lines, %s' % (seed, style, how)
+        if i % 5 == 4:
+            h.do_exec_history(src, {'origin': org, 'style': style}, 3)
+        else:
+            h.do_file_history(src, {'origin': org, 'style': style}, 3, how)
     for j, t in enumerate(ADVERSARIAL):
         h.text_cases(t, 'adversarial %d' % j, lexcase=(j < 10))
     # random character soup over the lexically relevant alphabet (unfold / safe / lex-free)
@@ -533,7 +665,36 @@ def replay(path):
     from malt.pyct import parser
     tmp = vlib.ensure_dir(os.path.join(vlib.BUILD, 'tmp', 'replay%d' % os.getpid()))
     try:
-        mod, _ = load_module(tmp, 'c15m_replay', src)
+        hist = rp.get('history') or [src]
+        sys.path.insert(0, tmp)
+        if rp.get('history_how') == 'exec+linecache':
+            import linecache
+            fname = rp.get('module') or '<c15-replay>'
+            for text in hist:
+                linecache.cache[fname] = (len(text), None, [l + '\n' for l in text.split('\n')[:-1]], fname)
+                ns = {'__name__': 'c15m_exec'}
+                exec(compile(text, fname, 'exec'), ns)
+                f0 = ns['REG'].get(rp.get('KEY'))
+                if f0 is not None and text is not hist[-1]:
+                    try:
+                        parser.parse_entity(f0, ())
+                    except Exception:   # noqa
+                        pass
+
+            class _M(object):
+                REG = ns['REG']
+            mod = _M
+        else:
+            mod, path = load_module(tmp, 'c15m_replay', hist[0])
+            for r, text in enumerate(hist[1:], 1):
+                f0 = mod.REG.get(rp.get('KEY'))
+                if f0 is not None:
+                    try:
+                        parser.parse_entity(f0, ())      # the earlier recovery is part of the history
+                    except Exception:   # noqa
+                        pass
+                write_source(path, text, 2000000000 + 10 * r)
+                mod = importlib.reload(mod)
         key = rp.get('KEY') or rp.get('lambda_key')
         f = mod.REG[key]
         print('object:', key, f)
@@ -544,4 +705,6 @@ def replay(path):
             print('observed now: raised %s: %s' % (type(e).__name__, e))
     finally:
         shutil.rmtree(tmp, ignore_errors=True)
+        if tmp in sys.path:
+            sys.path.remove(tmp)
     return 0
